@@ -1,2 +1,6 @@
 RC.append(("hessian of a function of an empty (size-0) array: jacobian stacks an empty list of VJP results and numpy.stack raises ValueError instead of returning an empty zero Hessian",
            [("C14", "hessian", "rev", "raised", "argument:empty,operator:hessian")]))
+RC.append(("np.linalg.solve with a batched matrix and a vector right-hand side that broadcasts: wrong first-order gradient (see C01) hence a non-symmetric, wrong second derivative",
+           [("C07", "solve", "RR", "hessian-not-symmetric", "batch_broadcast:True,rhs_vector:True"), ("C07", "solve", "RR", "wrong-value", "batch_broadcast:True,rhs_vector:True")]))
+RC.append(("np.linalg.norm with a tuple of negative axes: wrong first-order rule (see C01) hence disagreeing / asymmetric / wrong second derivatives",
+           [("C07", "norm", "*", k, "axis_sign:tuple-neg") for k in ("hessian-not-symmetric", "routes-disagree", "wrong-value", "wrong-shape")]))
